@@ -7,7 +7,8 @@
 //	    mode  self|self2|other   Interrupt called on the runner goroutine (self2: twice, the last value must win),
 //	                          or by a 2nd goroutine the probe waits for
 //	    pre   none|intr|intrclear   before the call, while idle: Interrupt(w) / Interrupt(w);ClearInterrupt()
-//	    program = block in the prefix syntax of lean/GojaModel/C15/Model.lean (L n, P, T, W, Y, N, Q, A, F)
+//	    program = block in the prefix syntax of lean/GojaModel/C15/Model.lean (L n, P, T, W, Y, N, Q, A, F);
+//	    N kinds 13..18: host functions that re-panic / return the nested call's error WRAPPED (%w, errors.Join, nested)
 //	  answer: res=<ok|exc|intr:V> log=<events> st=<flag>/<jobs>/<call>/<try> after=<..> log2=<..> st2=<..>
 //
 //	soak <seed> <rounds> <maxDelayMicros>
@@ -110,7 +111,7 @@ type renderer struct {
 	nested []string // sources of nested RunString bodies, by id
 }
 
-const nKinds = 13
+const nKinds = 19
 
 func (r *renderer) block(ss []stmt) string {
 	var b strings.Builder
@@ -184,6 +185,19 @@ func (r *renderer) stmt(s stmt) string {
 			return "Reflect.apply(function(){" + body + "},undefined,[]);"
 		case 12:
 			return "JSON.stringify({toJSON(){" + body + "}});"
+		case 13: // Go function calling a JS function; re-panics the error wrapped with %w
+			return "callGo(function(){" + body + "},2);"
+		case 14: // … wrapped with errors.Join
+			return "callGo(function(){" + body + "},3);"
+		case 15, 16: // nested RunString; the error re-panicked wrapped with %w (15) / errors.Join (16)
+			id := len(r.nested)
+			r.nested = append(r.nested, "")
+			r.nested[id] = body
+			return fmt.Sprintf("nestedRun(%d,%d);", id, s.a%nKinds-13)
+		case 17: // reflection-wrapped host function RETURNING the wrapped error (func(goja.Callable) error)
+			return "invoke(function(){" + body + "});"
+		case 18: // doubly wrapped: %w around errors.Join around %w
+			return "callGo(function(){" + body + "},4);"
 		}
 	}
 	panic("render: bad stmt")
@@ -203,6 +217,23 @@ type env struct {
 	reqCh   chan int
 	doneCh  chan struct{}
 	started bool
+}
+
+// wrapErr applies the error-handling style of a host function to the error of a nested call:
+// 0 pass through, 1 swallow (caller ignores), 2 %w, 3 errors.Join, 4 %w(errors.Join(%w)).
+func wrapErr(mode int, err error) error {
+	if _, isJS := err.(*goja.Exception); isJS {
+		return err // a script exception is re-thrown as it is; only host-level failures get annotated
+	}
+	switch mode {
+	case 2:
+		return fmt.Errorf("host function: nested call failed: %w", err)
+	case 3:
+		return errors.Join(errors.New("host function: cleanup also failed"), err)
+	case 4:
+		return fmt.Errorf("outer: %w", errors.Join(errors.New("side"), fmt.Errorf("inner: %w", err)))
+	}
+	return err
 }
 
 func classify(err error) string {
@@ -264,10 +295,10 @@ func (e *env) install() {
 	})
 	rt.Set("nestedRun", func(call goja.FunctionCall) goja.Value {
 		id := int(call.Argument(0).ToInteger())
-		swallow := call.Argument(1).ToInteger() != 0
+		mode := int(call.Argument(1).ToInteger())
 		_, err := rt.RunString(e.nested[id])
-		if err != nil && !swallow {
-			panic(err)
+		if err != nil && mode != 1 {
+			panic(wrapErr(mode, err))
 		}
 		return goja.Undefined()
 	})
@@ -276,12 +307,19 @@ func (e *env) install() {
 		if !ok {
 			panic("callGo: not a function")
 		}
-		swallow := call.Argument(1).ToInteger() != 0
+		mode := int(call.Argument(1).ToInteger())
 		_, err := f(goja.Undefined())
-		if err != nil && !swallow {
-			panic(err)
+		if err != nil && mode != 1 {
+			panic(wrapErr(mode, err))
 		}
 		return goja.Undefined()
+	})
+	// reflection-wrapped host function that RETURNS the annotated error (goja re-panics it)
+	rt.Set("invoke", func(fn goja.Callable) error {
+		if _, err := fn(nil); err != nil {
+			return fmt.Errorf("callback failed: %w", err)
+		}
+		return nil
 	})
 }
 
